@@ -285,6 +285,7 @@ func tryReplay(cfg *PropConfig, r *NamedResult, repo, verif string, rec map[stri
 	output := out.String()
 	rec["replay_call"] = call
 	rec["replay_test"] = src.String()
+	rec["replay_pkgdir"] = pkgDir
 	if !strings.Contains(output, "VR_DONE") && !strings.Contains(output, "VR_PANIC") {
 		return "not-attempted", "replay test did not run: " + firstLines(output, 15) + fmt.Sprint(runErr)
 	}
